@@ -226,3 +226,207 @@ Proof.
   - rewrite C1. unfold flat_ne. rewrite rebalance_tokens_conserves. reflexivity.
   - intros Hb. apply C2, rebalance_tokens_blank, Hb.
 Qed.
+
+(* ------------------------------------------------------------------ fixup_chunks *)
+Definition chunk_str (c : chunk) : str :=
+  match c with
+  | CWord w => w
+  | CImg _ html => html
+  | CUndiff s => s
+  | CStart s => s
+  | CEnd s => s
+  | CHref _ => [32]
+  end.
+
+Lemma lstrip_skipn ws s : exists k, lstrip ws s = skipn k s /\ (k <= List.length s)%nat.
+Proof.
+  induction s as [|c s [k [Hk Hl]]]; cbn [lstrip].
+  - exists 0%nat. split; [reflexivity|cbn; lia].
+  - destruct (ws c).
+    + exists (S k). split; [exact Hk|cbn; lia].
+    + exists 0%nat. split; [reflexivity|cbn; lia].
+Qed.
+
+Lemma split_trailing_ws_app w : let (body, trail) := split_trailing_ws w in body ++ trail = w.
+Proof.
+  unfold split_trailing_ws, py_rstrip, rstrip.
+  destruct (lstrip_skipn py_isspace (rev w)) as [k [Hk Hl]]. rewrite Hk, skipn_rev, rev_involutive.
+  rewrite firstn_length, rev_length in *. rewrite Nat.min_l by lia. apply firstn_skipn.
+Qed.
+
+Definition no_spacers (l : list token) : Prop := Forall (fun t => is_spacer t = false) l.
+
+Lemma no_spacers_blank l : no_spacers l -> spacers_blank l.
+Proof. intros H. eapply Forall_impl; [|exact H]. intros t Ht Hs. congruence. Qed.
+
+Lemma fixup_aux_conserves : forall cs acc res,
+  (acc <> [] \/ res <> []) ->
+  flat_ne (fixup_aux cs acc res) = flat_ne (rev res) ++ ne acc ++ ne (map chunk_str cs).
+Proof.
+  induction cs as [|c cs IH]; intros acc res Hne; cbn [fixup_aux map].
+  - cbn [ne filter]. rewrite app_nil_r. destruct res as [|last rest].
+    + cbn [rev]. rewrite flat_ne_blank_token, app_nil_r, flat_ne_nil_l. reflexivity.
+    + cbn [rev]. rewrite !flat_ne_app, <- app_assoc. f_equal.
+      rewrite (flat_ne_cons _ []), (flat_ne_cons last []), flat_ne_nil_l, !app_nil_r, !expand_false.
+      cbn [set_post t_pre t_html t_trail t_post]. rewrite !ne_app, <- !app_assoc. reflexivity.
+  - assert (Tok : forall k text html trail, html ++ trail = chunk_str c ->
+              flat_ne (fixup_aux cs [] (mk_token k text html acc [] trail :: res)) =
+              flat_ne (rev res) ++ ne acc ++ ne (chunk_str c :: map chunk_str cs)).
+    { intros k text html trail E. rewrite IH by (right; discriminate). cbn [rev]. rewrite flat_ne_app.
+      rewrite (flat_ne_cons _ []), flat_ne_nil_l, app_nil_r, expand_false.
+      cbn [mk_token t_pre t_html t_trail t_post]. rewrite E, !ne_app. change (ne []) with (@nil str).
+      cbn [app]. rewrite app_nil_r, <- !app_assoc.
+      change (chunk_str c :: map chunk_str cs) with ([chunk_str c] ++ map chunk_str cs). rewrite ne_app. reflexivity. }
+    change (ne (chunk_str c :: map chunk_str cs)) with (ne ([chunk_str c] ++ map chunk_str cs)).
+    destruct c as [srcs html|s|s|s|w|h].
+    + pose proof (split_trailing_ws_app html) as E. destruct (split_trailing_ws html) as [tag trail]. apply Tok. exact E.
+    + apply Tok. apply app_nil_r.
+    + rewrite IH by (left; destruct acc; discriminate). rewrite !ne_app, <- !app_assoc. reflexivity.
+    + destruct acc as [|a0 acc'].
+      * destruct res as [|last rest]; [destruct Hne as [H|H]; congruence|].
+        rewrite IH by (right; discriminate). cbn [rev]. rewrite !flat_ne_app, <- !app_assoc. f_equal.
+        rewrite (flat_ne_cons _ []), (flat_ne_cons last []), flat_ne_nil_l, !app_nil_r, !expand_false.
+        cbn [set_post t_pre t_html t_trail t_post]. rewrite !ne_app. change (ne []) with (@nil str). cbn [app].
+        rewrite <- !app_assoc. reflexivity.
+      * rewrite IH by (left; discriminate). rewrite !ne_app, <- !app_assoc. reflexivity.
+    + pose proof (split_trailing_ws_app w) as E. destruct (split_trailing_ws w) as [body trail]. apply Tok. exact E.
+    + apply Tok. reflexivity.
+Qed.
+
+Definition starts_with_end (cs : list chunk) : bool := match cs with CEnd _ :: _ => true | _ => false end.
+
+Theorem fixup_conserves cs :
+  starts_with_end cs = false -> flat_ne (fixup_chunks cs) = ne (map chunk_str cs).
+Proof.
+  unfold fixup_chunks. intros H. destruct cs as [|c cs]; [reflexivity|].
+  assert (Tok : forall k text html trail, html ++ trail = chunk_str c ->
+            flat_ne (fixup_aux cs [] [mk_token k text html [] [] trail]) = ne (map chunk_str (c :: cs))).
+  { intros k text html trail E. rewrite fixup_aux_conserves by (right; discriminate). cbn [rev app].
+    rewrite (flat_ne_cons _ []), flat_ne_nil_l, app_nil_r, expand_false.
+    cbn [mk_token t_pre t_html t_trail t_post map]. rewrite E. change (ne []) with (@nil str). cbn [app].
+    change (chunk_str c :: map chunk_str cs) with ([chunk_str c] ++ map chunk_str cs). rewrite ?ne_app. reflexivity. }
+  destruct c as [srcs html|s|s|s|w|h]; cbn [fixup_aux]; try discriminate.
+  - pose proof (split_trailing_ws_app html) as E. destruct (split_trailing_ws html) as [tag trail]. apply Tok. exact E.
+  - apply Tok. apply app_nil_r.
+  - rewrite fixup_aux_conserves by (left; discriminate). cbn [rev]. rewrite flat_ne_nil_l. cbn [app map chunk_str].
+    change (s :: map chunk_str cs) with ([s] ++ map chunk_str cs). rewrite (ne_app [s]). reflexivity.
+  - pose proof (split_trailing_ws_app w) as E. destruct (split_trailing_ws w) as [body trail]. apply Tok. exact E.
+  - apply Tok. reflexivity.
+Qed.
+
+(* fixup never makes spacer tokens *)
+Lemma fixup_aux_no_spacers : forall cs acc res, no_spacers res -> no_spacers (fixup_aux cs acc res).
+Proof.
+  induction cs as [|c cs IH]; intros acc res H; cbn [fixup_aux].
+  - destruct res as [|last rest]; [repeat constructor|].
+    inversion H; subst. apply Forall_rev. constructor; assumption.
+  - destruct c as [srcs html|s|s|s|w|h].
+    + destruct (split_trailing_ws html). apply IH. constructor; [reflexivity|exact H].
+    + apply IH. constructor; [reflexivity|exact H].
+    + apply IH, H.
+    + destruct acc; [|apply IH, H]. destruct res as [|last rest]; [apply IH, H|].
+      inversion H; subst. apply IH. constructor; assumption.
+    + destruct (split_trailing_ws w). apply IH. constructor; [reflexivity|exact H].
+    + apply IH. constructor; [reflexivity|exact H].
+Qed.
+
+(* flatten_root never starts with an end tag *)
+Lemma flatten_el_head e : match flatten_el e with [] => False | CEnd _ :: _ => False | _ => True end.
+Proof.
+  destruct e as [tag attrs text children tail source]. cbn [flatten_el].
+  destruct (mem_str tag undiffable_content_tags && negb (str_eqb tag (s2l "img"))); [exact I|].
+  destruct (str_eqb tag (s2l "img")); destruct (is_void tag); destruct text; destruct children; destruct tail; exact I.
+Qed.
+
+Lemma flatten_root_head e : starts_with_end (flatten_root e) = false.
+Proof.
+  destruct e as [tag attrs text children tail source]. cbn [flatten_root].
+  unfold word_chunks. destruct (split_words text) as [|w ws]; [|reflexivity]. cbn [map app].
+  destruct children as [|c cs].
+  - cbn [map List.concat app]. destruct (str_eqb tag [97]); [|reflexivity].
+    destruct (assoc_str (s2l "href") attrs) as [[|x h]|]; reflexivity.
+  - cbn [map List.concat]. pose proof (flatten_el_head c) as Hc.
+    destruct (flatten_el c) as [|c0 r]; [destruct Hc|]. destruct c0; try reflexivity. destruct Hc.
+Qed.
+
+(* the whole tokenising pipeline conserves the serialisation of the tree, for every spacer cap *)
+Theorem prepare_conserves root cap :
+  flat_ne (prepare root cap) = ne (map chunk_str (flatten_root root)).
+Proof.
+  unfold prepare, tokenize.
+  assert (Hns : no_spacers (fixup_chunks (flatten_root root))) by (apply fixup_aux_no_spacers; constructor).
+  destruct (customize_conserves (fixup_chunks (flatten_root root))) as [C1 C2].
+  rewrite limit_conserves by (apply C2, no_spacers_blank, Hns).
+  rewrite C1. apply fixup_conserves, flatten_root_head.
+Qed.
+
+(* ------------------------------------------------------------------ text stays text *)
+Definition word_ok (c : chunk) : Prop :=
+  match c with CWord s => ~ In 60 s /\ ~ In 62 s | _ => True end.
+
+Lemma word_chunks_ok text : Forall word_ok (word_chunks text).
+Proof.
+  unfold word_chunks. apply Forall_forall. intros c Hc. apply in_map_iff in Hc as [w [<- _]].
+  apply escape_no_angle.
+Qed.
+
+Section ElInd.
+  Variable P : el -> Prop.
+  Hypothesis H : forall tag attrs text children tail source,
+      Forall P children -> P (El tag attrs text children tail source).
+  Fixpoint el_ind' (e : el) : P e :=
+    match e with
+    | El tag attrs text children tail source =>
+        H tag attrs text children tail source
+          ((fix go (l : list el) : Forall P l :=
+              match l with
+              | [] => Forall_nil P
+              | y :: l' => Forall_cons y (el_ind' y) (go l')
+              end) children)
+    end.
+End ElInd.
+
+Lemma Forall_concat {A} (Q : A -> Prop) (ls : list (list A)) :
+  Forall (Forall Q) ls -> Forall Q (List.concat ls).
+Proof. induction 1 as [|l ls Hl Hls IH]; cbn [List.concat]; [constructor|apply Forall_app; split; assumption]. Qed.
+
+Theorem flatten_el_words_ok e : Forall word_ok (flatten_el e).
+Proof.
+  induction e as [tag attrs text children tail source IHc] using el_ind'. cbn [flatten_el].
+  destruct (mem_str tag undiffable_content_tags && negb (str_eqb tag (s2l "img"))); [repeat constructor|].
+  assert (Hhead : Forall word_ok (if str_eqb tag (s2l "img")
+                                  then [CImg (img_srcs (El tag attrs text children tail source)) (start_tag (El tag attrs text children tail source))]
+                                  else [CStart (start_tag (El tag attrs text children tail source))])).
+  { destruct (str_eqb tag (s2l "img")); repeat constructor. }
+  assert (Hkids : Forall word_ok (List.concat (map flatten_el children))).
+  { apply Forall_concat. apply Forall_forall. intros l Hl. apply in_map_iff in Hl as [c [<- Hc]].
+    rewrite Forall_forall in IHc. apply IHc, Hc. }
+  assert (Hrest : Forall word_ok
+            (word_chunks text ++ List.concat (map flatten_el children) ++
+             match str_eqb tag [97], assoc_str (s2l "href") attrs with
+             | true, Some ((_ :: _) as h) => [CHref h] | _, _ => [] end ++
+             (if is_void tag then [] else [CEnd (end_tag (El tag attrs text children tail source))]) ++ word_chunks tail)).
+  { apply Forall_app. split; [apply word_chunks_ok|]. apply Forall_app. split; [exact Hkids|].
+    apply Forall_app. split.
+    - destruct (str_eqb tag [97]); [|constructor]. destruct (assoc_str (s2l "href") attrs) as [[|x h]|]; repeat constructor.
+    - apply Forall_app. split; [destruct (is_void tag); repeat constructor|apply word_chunks_ok]. }
+  destruct (is_void tag); destruct text; destruct children; destruct tail;
+    first [exact Hhead | apply Forall_app; split; [exact Hhead|exact Hrest]].
+Qed.
+
+Theorem flatten_root_words_ok e : Forall word_ok (flatten_root e).
+Proof.
+  destruct e as [tag attrs text children tail source]. cbn [flatten_root].
+  apply Forall_app. split; [apply word_chunks_ok|]. apply Forall_app. split.
+  - apply Forall_concat. apply Forall_forall. intros l Hl. apply in_map_iff in Hl as [c [<- Hc]]. apply flatten_el_words_ok.
+  - destruct (str_eqb tag [97]); [|constructor]. destruct (assoc_str (s2l "href") attrs) as [[|x h]|]; repeat constructor.
+Qed.
+
+(* a chunk without '<' is never classified as a tag by the marker state machines *)
+Lemma no_lt_not_tag s : ~ In 60 s -> starts_lt s = false.
+Proof. destruct s as [|c s]; [reflexivity|]. cbn [starts_lt]. intros H. destruct (N.eqb_spec c 60) as [->|Hne].
+  - exfalso. apply H. left. reflexivity.
+  - destruct c as [|p]; [reflexivity|]. destruct (N.eq_dec (N.pos p) 60) as [E|NE]; [contradiction|].
+    unfold starts_lt. destruct p as [p|p|]; try reflexivity;
+      repeat (destruct p as [p|p|]; try reflexivity); congruence.
+Qed.
